@@ -3,7 +3,8 @@
 Correspondence with Model/Variation.v (+ Model/VariationRun.v) and direct oracle.
 
 Operator level   PmMutator / UniformMutator / NonUniformMutation .mutate, SimulatedBinaryCrossover.cross and the
-                 three swarm update_position methods are run on generated boxes / parents with the module
+                 three swarm update_position methods are run on generated boxes / parents (in every representation
+                 of a real vector: floats, numpy floats, float ndarray, Python / numpy ints, integer ndarray) with the module
                  `random` of artap.operators and `Operator.clip` replaced by recording wrappers.  The recorded
                  tape (every draw, every first argument of clip, in call order) is the oracle input of the model;
                  the children are compared bit for bit.
@@ -51,6 +52,11 @@ ASSUMPTIONS = [
     "NaN is never fed and an implementation-produced NaN is reported by the direct oracle)",
     "lb <= ub for every parameter; ub - lb finite (no overflow of the range)",
     "real-valued parameters (parameter_type 'integer' truncates after rounding and is outside the property)",
+    "design vectors are lists (of Python / numpy floats or ints) or float ndarrays for every operator, and also integer ndarrays for "
+    "SBX and the three mutators (ints are embedded exactly). The swarm position update is NOT claimed for a particle whose position is "
+    "an integer ndarray: update_position works in place on individual.vector and numpy truncates x + v and the reset to a non-integer "
+    "bound ([1,-1] + [-0.3,0.2] in the box [0.5,4.5] x [-3.5,-0.5] gives [0,0]); no shipped path creates such a position (it needs a "
+    "user-written generator object returning integer arrays); the combination is run and counted, not judged (lead's ruling, round 3)",
 ]
 
 HEADER = ("From Artap Require Import Run.C08Run.\nFrom Coq Require Import List ZArith QArith Floats.\nImport ListNotations.\n"
@@ -58,6 +64,7 @@ HEADER = ("From Artap Require Import Run.C08Run.\nFrom Coq Require Import List Z
 
 EPS = 2.0 ** -52
 TOL_DEFAULT = 1e-12
+POSITION_INT_NDARRAY_IN_DOMAIN = False     # see position_case and ASSUMPTIONS: update_position on an integer-ndarray position
 
 
 # --------------------------------------------------------------------------------------------------------------
@@ -127,7 +134,10 @@ class Recorder:
 
 
 def is_real(x):
-    return isinstance(x, (int, float)) and not isinstance(x, bool)
+    """a real number in any representation the operators hand back: int, float, numpy integer / floating scalar
+    (numbers.Real covers them; bool, numpy.bool_ and complex are not real-valued coordinates)"""
+    import numbers
+    return isinstance(x, numbers.Real) and not isinstance(x, bool)
 
 
 def bad_number(x):
@@ -146,20 +156,25 @@ def ulp_of(*xs):
     return math.ulp(max(abs(float(x)) for x in xs))
 
 
-def tol_of(lb, ub, precision=None):
-    """the property's slack: 1e-12 (no declared precision) or precision/2, plus 4 ulp of the larger bound"""
+def tol_of(lb, ub, precision=None, exact=False):
+    """the property's slack: 1e-12 (no declared precision) or precision/2, plus 4 ulp of the larger bound for designs that
+    come out of a float formula (gen_number, scaled designs).  exact=True: results of clip / of the swarm reset, which are
+    the bound itself or a value compared with it - the slack is the property's 1e-12 and nothing else (red-team round 3:
+    a child 2e-10 above ub = 0.7 in the box [-2.5e6, 0.7] is hidden by 4 ulp(2.5e6) = 1.9e-9)"""
     base = TOL_DEFAULT if not precision else precision / 2.0
+    if exact:
+        return Fraction(base)
     return Fraction(base) + 4 * Fraction(ulp_of(lb, ub))
 
 
-def outside(x, lb, ub, precision=None):
+def outside(x, lb, ub, precision=None, exact=False):
     """None when x is in the box up to the property's slack, else a description"""
     if bad_number(x):
         return "not a real number: %r" % (x,)
     if isinstance(x, float) and math.isinf(x):
         return "infinite"
-    t = tol_of(lb, ub, precision)
-    X = Fraction(x)
+    t = tol_of(lb, ub, precision, exact)
+    X = Fraction(float(x)) if not isinstance(x, int) else Fraction(int(x))
     if X < Fraction(lb) - t:
         return "below the lower bound %r by %.3g" % (lb, float(Fraction(lb) - X))
     if X > Fraction(ub) + t:
@@ -170,12 +185,22 @@ def outside(x, lb, ub, precision=None):
 # --------------------------------------------------------------------------------------------------------------
 # generators of boxes, parents, draws
 # --------------------------------------------------------------------------------------------------------------
+ASYM_BOXES = [(-2.5e6, 0.7), (-1e9, 1e-3), (-1e6, 0.3), (-1e9, 12.34), (-0.7, 2.5e6), (-1e-3, 1e9), (-12.34, 1e9), (-3e15, 0.1),
+              (1e-3, 1e9), (-1e9, -1e-3), (-4.7e5, 1.1e-5)]
+ZERO_SIDE_BOXES = [(0.5, 4.5), (0.1, 3.9), (0.25, 100.75), (-3.5, -0.5), (-7.5, -2.25), (0.7, 9.2), (-6.4, -0.3), (2.5, 8.5)]
+NONINT_BOXES = [(0.5, 4.5), (-3.5, -0.5), (-2.25, 7.75), (0.1, 3.9), (-0.9, 0.9), (1.5, 2.5), (-7.5, -2.25), (0.25, 100.75)]
+
+
 def gen_box(rng, allow_zero_width=True):
     k = rng.random()
-    if k < 0.18:
+    if k < 0.10:
         return (0.0, 1.0)
-    if k < 0.32:
+    if k < 0.18:
+        return rng.choice(ASYM_BOXES)        # |lb| >> |ub| or |ub| >> |lb|: lb + (ub - lb) is rounded at the magnitude of the larger
+    if k < 0.26:
         return (-5.0, 5.0)
+    if k < 0.32:
+        return rng.choice(NONINT_BOXES)      # non-integer bounds (whole-number parents live strictly inside)
     if k < 0.42:
         return (-7.5, -2.25)
     if k < 0.50:
@@ -364,15 +389,90 @@ class Shared:
             self.snapshot = copy.deepcopy(self.params)
 
 
-def represent(rng, v, plain=False):
-    """the same vector as a list of floats, a list of numpy.float64 or a numpy array"""
+def is_whole(x):
+    return isinstance(x, (int, float)) and float(x).is_integer() and abs(x) <= 2 ** 40
+
+
+INT_NDARRAY = "ndarray of ints"
+
+
+WHOLE_KINDS = ["list of ints", "list of numpy.int64", "ndarray of ints", "mixed int/float", "mixed numpy.int64/numpy.float64"]
+
+
+def represent(rng, v, plain=False, whole_kinds=True, prefer_whole=False, force=None):
+    """the same vector in every representation the operators accept: a list of floats, a list of numpy.float64, a float
+    ndarray and - for coordinates that are whole numbers - Python ints, numpy.int64 scalars, a mix of ints and floats, an
+    integer ndarray.  The value of every coordinate is the same real number in all of them (ints are embedded exactly:
+    float(3) == 3), so the model, which works on binary64 values, gets float(x) and the result is compared as float(y)."""
     import numpy as np
+    v = list(v)
     k = 0.0 if plain else rng.random()
-    if k < 0.7:
-        return list(v), "list"
-    if k < 0.85:
+    whole = [is_whole(x) for x in v]
+    if (prefer_whole or force) and any(whole) and not plain:
+        k = 0.9
+    if k < 0.5 or not v:
+        return [float(x) for x in v], "list"
+    if k < 0.6:
         return [np.float64(x) for x in v], "list of numpy.float64"
-    return np.array([float(x) for x in v], dtype=np.float64), "ndarray"
+    if k < 0.7:
+        return np.array([float(x) for x in v], dtype=np.float64), "ndarray"
+    if not whole_kinds or not any(whole):
+        return [float(x) for x in v], "list"
+    if all(whole):
+        kind = force or rng.choice(["list of ints", "list of ints", "list of numpy.int64", INT_NDARRAY, "mixed int/float", "mixed numpy.int64/numpy.float64"])
+    else:
+        kind = rng.choice(["mixed int/float", "mixed numpy.int64/numpy.float64"])
+    if kind == "list of ints":
+        return [int(x) for x in v], kind
+    if kind == "list of numpy.int64":
+        return [np.int64(int(x)) for x in v], kind
+    if kind == INT_NDARRAY:
+        return np.array([int(x) for x in v], dtype=np.int64), kind
+    flip = [w and (rng.random() < 0.6) for w in whole]
+    if not any(flip):
+        flip[whole.index(True)] = True
+    if kind == "mixed int/float":
+        return [int(x) if f else float(x) for x, f in zip(v, flip)], kind
+    return [np.int64(int(x)) if f else np.float64(x) for x, f in zip(v, flip)], kind
+
+
+def rebuild(v, kind):
+    """replay: the stored (float-valued) vector in the representation recorded with the failing input"""
+    import numpy as np
+    v = list(v)
+    if kind == "list of ints":
+        return [int(x) for x in v]
+    if kind == "list of numpy.int64":
+        return [np.int64(int(x)) for x in v]
+    if kind == INT_NDARRAY:
+        return np.array([int(x) for x in v], dtype=np.int64)
+    if kind == "mixed int/float":
+        return [int(x) if is_whole(x) else float(x) for x in v]
+    if kind == "mixed numpy.int64/numpy.float64":
+        return [np.int64(int(x)) if is_whole(x) else np.float64(x) for x in v]
+    if kind == "list of numpy.float64":
+        return [np.float64(x) for x in v]
+    if kind == "ndarray":
+        return np.array([float(x) for x in v], dtype=np.float64)
+    return [float(x) for x in v]
+
+
+def plain_numbers(v):
+    """JSON-able copy of a result vector (numpy scalars -> Python numbers, anything else -> repr)"""
+    out = []
+    for x in v:
+        if hasattr(x, "item"):
+            x = x.item()
+        out.append(x if isinstance(x, (int, float)) and not isinstance(x, bool) else repr(x))
+    return out
+
+
+def gen_whole_coord(rng, lb, ub):
+    """a whole number inside [lb, ub] when there is one (else an ordinary coordinate)"""
+    lo, hi = math.ceil(float(lb)), math.floor(float(ub))
+    if lo > hi or abs(lo) > 2 ** 40 or abs(hi) > 2 ** 40:
+        return gen_coord(rng, lb, ub, slack=False)
+    return float(rng.choice([lo, hi, rng.randint(lo, min(hi, lo + 50)), rng.randint(max(lo, hi - 50), hi)]))
 
 
 def same_bits(a, b):
@@ -401,7 +501,7 @@ def run(ctx):
     def count_op(kind):
         hist["op"][kind] = hist["op"].get(kind, 0) + 1
 
-    def oracle_child(kind, box, child, n_expected, inp):
+    def oracle_child(kind, box, child, n_expected, inp, match_kind="out_of_box"):
         """the property on the implementation's own output: real-valued, same dimension, inside the box"""
         if len(child) != n_expected:
             ctx.oracle_failures.append({"what": "%s returns a vector of dimension %d for a parent of dimension %d" % (kind, len(child), n_expected),
@@ -410,12 +510,12 @@ def run(ctx):
         for i, (lb, ub) in enumerate(box):
             if i >= len(child):
                 break
-            why = outside(child[i], lb, ub)
+            why = outside(child[i], lb, ub, exact=True)
             if why:
                 if len(ctx.oracle_failures) < 40:
-                    ctx.oracle_failures.append({"what": "%s: coordinate %d of the result = %r is %s (box [%r, %r])" % (kind, i, child[i], why, lb, ub),
-                                                "input": inp, "observed": list(child), "required": "lb <= x <= ub (up to 1e-12)",
-                                                "match": {"kind": "out_of_box", "op": kind}})
+                    ctx.oracle_failures.append({"what": "%s: coordinate %d of the result = %r is %s (box [%r, %r])" % (kind, i, plain_numbers([child[i]])[0], why, lb, ub),
+                                                "input": inp, "observed": plain_numbers(child), "required": "lb <= x <= ub (up to 1e-12)",
+                                                "match": {"kind": match_kind, "op": kind} if match_kind == "out_of_box" else {"kind": match_kind}})
                 return
 
     def add_op_case(kind, coq_kind, prob, box, p1, p2, tape, result, inp):
@@ -433,7 +533,7 @@ def run(ctx):
         meta.append(m)
 
     # ---------------------------------------------------------------- mutators
-    def mutator_case(kind, box, parent, prob, extra, src, shared=None, plain=False):
+    def mutator_case(kind, box, parent, prob, extra, src, shared=None, plain=False, prefer_whole=False, force=None):
         sh = shared or Shared(rng, box)
         params = sh.params
         if kind == "pm":
@@ -449,7 +549,7 @@ def run(ctx):
                          lambda: ops.NonUniformMutation(params, prob, extra["max_iterations"], extra["perturbation"]))
             coq_kind = "OpNonUniform"
             args = (extra["iteration"],)
-        arg, rep_name = represent(rng, parent, plain)
+        arg, rep_name = represent(rng, parent, plain, prefer_whole=prefer_whole, force=force)
         hist["representation"][rep_name] = hist["representation"].get(rep_name, 0) + 1
         inp = {"op": kind, "box": [list(b) for b in box], "parent": list(parent), "probability": prob, "parent_given_as": rep_name,
                "call_number_on_this_operator_object": sh.calls + 1, "names": list(sh.names),
@@ -517,6 +617,10 @@ def run(ctx):
         d = rng.choice([1, 1, 2, 2, 3, 4, 6])
         box = [gen_box(rng, allow_zero_width=(kind != "pm")) for _ in range(d)]
         parent = [gen_coord(rng, lb, ub) for lb, ub in box]
+        whole_mode = rng.random() < 0.15           # whole-number parents in boxes with non-integer bounds, given as ints
+        if whole_mode:
+            box = [rng.choice(NONINT_BOXES + [(0, 5), (-3, 3)] + ASYM_BOXES[:4]) for _ in range(d)]
+            parent = [gen_whole_coord(rng, lb, ub) for lb, ub in box]
         r = rng.random()
         if r < 0.04:
             parent = parent[:-1]                    # IndexError
@@ -533,14 +637,17 @@ def run(ctx):
             extra = {"max_iterations": mx, "iteration": rng.choice([0, mx, rng.randint(0, mx), rng.randint(0, mx)]),
                      "perturbation": rng.choice([0.5, 0.5, 1.0, 5.0, 0.1])}
         hist["dims"][str(d)] = hist["dims"].get(str(d), 0) + 1
-        mutator_case(kind, box, parent, prob, extra, draw_source(rng, prob))
+        mutator_case(kind, box, parent, prob, extra, draw_source(rng, prob), prefer_whole=whole_mode)
 
     # ---------------------------------------------------------------- SBX
-    def sbx_case(box, p1, p2, prob, di, src, shared=None, plain=False):
+    def sbx_case(box, p1, p2, prob, di, src, shared=None, plain=False, prefer_whole=False, force=(None, None)):
         sh = shared or Shared(rng, box)
         params = sh.params
-        a1, rep1 = represent(rng, p1, plain)
-        a2, rep2 = represent(rng, p2, plain)
+        a1, rep1 = represent(rng, p1, plain, prefer_whole=prefer_whole, force=force[0])
+        a2, rep2 = represent(rng, p2, plain, prefer_whole=prefer_whole, force=force[1])
+        if prefer_whole and rep1 != rep2 and rng.random() < 0.6 and force == (None, None):       # mostly both parents in the same representation
+            a2, rep2 = represent(rng, p2, plain, prefer_whole=True)
+        hist["representation"][rep2] = hist["representation"].get(rep2, 0) + 1
         hist["representation"][rep1] = hist["representation"].get(rep1, 0) + 1
         inp = {"op": "sbx", "box": [list(b) for b in box], "p1": list(p1), "p2": list(p2), "probability": prob, "distribution_index": di,
                "parents_given_as": [rep1, rep2], "call_number_on_this_operator_object": sh.calls + 1, "names": list(sh.names),
@@ -568,8 +675,9 @@ def run(ctx):
             hist["calls_on_reused_objects"] += 1
         if sh.reboxed:
             hist["calls_after_a_box_change"] += 1
-        oracle_child("sbx child 1", box, result[0], len(p1), inp)
-        oracle_child("sbx child 2", box, result[1], len(p2), inp)
+        mk = "sbx_int_ndarray_truncation" if INT_NDARRAY in (rep1, rep2) else "out_of_box"     # F15 (fixed in /repo 2f78bf8)
+        oracle_child("sbx child 1", box, result[0], len(p1), inp, mk)
+        oracle_child("sbx child 2", box, result[1], len(p2), inp, mk)
         if len(tape) == 1:
             hist["sbx_skipped_by_probability"] += 1
         hist["sbx_coincident_coords"] += sum(1 for a, b in zip(p1, p2) if abs(b - a) <= EPS)
@@ -588,6 +696,11 @@ def run(ctx):
         box = [gen_box(rng) for _ in range(d)]
         p1 = [gen_coord(rng, lb, ub) for lb, ub in box]
         p2 = gen_second_parent(rng, p1, box)
+        whole_mode = rng.random() < 0.2             # both parents whole numbers, boxes with non-integer bounds
+        if whole_mode:
+            box = [rng.choice(NONINT_BOXES + [(0, 5), (-3, 3)] + ASYM_BOXES[:4]) for _ in range(d)]
+            p1 = [gen_whole_coord(rng, lb, ub) for lb, ub in box]
+            p2 = [gen_whole_coord(rng, lb, ub) if rng.random() < 0.85 else x for x, (lb, ub) in zip(p1, box)]
         if rng.random() < 0.5:
             p1, p2 = p2, p1
         if rng.random() < 0.05:
@@ -597,7 +710,7 @@ def run(ctx):
         prob = rng.choice([1.0, 1.0, 1.0, 0.0, 0.5, 0.6, 0.9])
         di = rng.choice([0, 1, 5, 15, 15, 20, 50, 100, 0.5])
         hist["dims"][str(d)] = hist["dims"].get(str(d), 0) + 1
-        sbx_case(box, p1, p2, prob, di, draw_source(rng, prob))
+        sbx_case(box, p1, p2, prob, di, draw_source(rng, prob), prefer_whole=whole_mode)
 
     # ---------------------------------------------------------------- swarm update_position (one particle)
     from artap.algorithm_swarm import OMOPSO, SMPSO, PSOGA
@@ -609,20 +722,38 @@ def run(ctx):
 
     class _Particle:
         def __init__(self, x, v):
-            self.vector = list(x)
+            self.vector = x
             self.features = {"velocity": list(v)}
 
-    def position_case(which, box, x, v):
+    def position_case(which, box, x, v, prefer_whole=False, plain=True, force=None):
         cls, coq_kind = {"omopso": (OMOPSO, "OpFlip"), "psoga": (PSOGA, "OpFlip"), "smpso": (SMPSO, "OpDamp")}[which]
-        part = _Particle(x, v)
-        inp = {"op": "update_position/" + which, "box": [list(b) for b in box], "position": list(x), "velocity": list(v)}
+        arg, rep_name = represent(rng, x, plain, prefer_whole=prefer_whole, force=force)
+        hist["representation"]["position: " + rep_name] = hist["representation"].get("position: " + rep_name, 0) + 1
+        part = _Particle(arg, v)
+        inp = {"op": "update_position/" + which, "box": [list(b) for b in box], "position": list(x), "velocity": list(v),
+               "position_given_as": rep_name}
+        out_of_domain = rep_name == INT_NDARRAY and not POSITION_INT_NDARRAY_IN_DOMAIN
         try:
             cls.update_position(_Holder(make_params(box)), [part])
             result = (list(part.vector), list(part.features["velocity"]))
         except IndexError:
             result = None
         except Exception as e:
-            ctx.mismatches.append({"what": "update_position raised %r" % (e,), "case": inp})
+            if not out_of_domain:
+                ctx.mismatches.append({"what": "update_position raised %r" % (e,), "case": inp})
+                return
+            result = None
+        if out_of_domain:
+            # outside C08's domain by the lead's ruling (ASSUMPTIONS; notes/C08.md "red-team round 3"): update_position works in
+            # place on individual.vector, an integer ndarray truncates x + v and the reset to a non-integer bound; no shipped
+            # path creates such a position.  The combination is run and counted, one example is kept in the evidence.
+            bucket = hist.setdefault("position_update_on_integer_ndarray_positions_outside_the_domain",
+                                     {"calls": 0, "result_outside_the_box": 0, "example": None})
+            bucket["calls"] += 1
+            if result is not None and any(outside(c, lb, ub, exact=True) for c, (lb, ub) in zip(result[0], box)):
+                bucket["result_outside_the_box"] += 1
+                if bucket["example"] is None:
+                    bucket["example"] = dict(inp, result=plain_numbers(result[0]))
             return
         count_op("position_" + which)
         if result is not None:
@@ -645,6 +776,10 @@ def run(ctx):
         d = rng.choice([1, 2, 2, 3, 4])
         box = [gen_box(rng) for _ in range(d)]
         x = [gen_coord(rng, lb, ub) for lb, ub in box]
+        whole_mode = rng.random() < 0.2
+        if whole_mode:
+            box = [rng.choice(NONINT_BOXES + [(0, 5), (-3, 3)] + ASYM_BOXES[:4]) for _ in range(d)]
+            x = [gen_whole_coord(rng, lb, ub) for lb, ub in box]
         v = []
         for (lb, ub), xi in zip(box, x):
             lb, ub = float(lb), float(ub)
@@ -673,7 +808,9 @@ def run(ctx):
         # an infinite velocity on an infinite... position + velocity must not be NaN
         if any(math.isnan(a + b) for a, b in zip(x, v)):
             return
-        position_case(which, box, x, v)
+        if whole_mode and rng.random() < 0.5:
+            v = [vi if math.isinf(vi) or abs(vi) > 1e15 else rng.choice([vi, float(round(vi)), 0.3, -0.3, 0.7, -0.7]) for vi in v]
+        position_case(which, box, x, v, prefer_whole=whole_mode, plain=False)
 
     # ---------------------------------------------------------------- corpus (boundary cases read off the code)
     def const_src(vals):
@@ -700,6 +837,49 @@ def run(ctx):
                 corpus_gen.append((box, c["precision"], c["n"], list(c["draws"])))
     for which in ("omopso", "smpso", "psoga"):
         position_case(which, [(0.0, 1.0)], [1.0], [math.inf])        # not representable in JSON
+
+    # ---- red-team round 3: whole-number parents / positions strictly inside boxes with NON-INTEGER bounds, in every
+    # representation of a whole number (Python ints, numpy.int64 scalars, integer ndarray, mixtures with floats), for every
+    # operator: a result that is truncated or rounded to a whole number falls out of such a box next to a bound
+    def whole_stream():
+        for kind_a in WHOLE_KINDS:
+            for kind_b in [kind_a, rng.choice(WHOLE_KINDS), "list"]:
+                for _ in range(ctx.pick(6, 20)):
+                    d = rng.choice([1, 2, 3])
+                    # mostly boxes that do not contain 0 (truncation toward zero then moves a child next to the zero-side bound
+                    # out of the box), one parent on the whole number next to that bound
+                    box = [rng.choice(ZERO_SIDE_BOXES if rng.random() < 0.7 else NONINT_BOXES) for _ in range(d)]
+                    p1 = [gen_whole_coord(rng, lb, ub) for lb, ub in box]
+                    p2 = [gen_whole_coord(rng, lb, ub) for lb, ub in box]
+                    for i, (lb, ub) in enumerate(box):
+                        if rng.random() < 0.6 and (lb > 0 or ub < 0):
+                            p1[i] = float(math.ceil(lb)) if lb > 0 else float(math.floor(ub))
+                    fb = None if kind_b == "list" else kind_b
+                    if rng.random() < 0.6:       # scripted draws: every coordinate crossed, spread factor far from 1 (children on / next to a bound)
+                        seq = [0.1]
+                        for _c in range(d):
+                            seq += [0.25, rng.choice([0.9, 0.99, 0.999, 0.01, 0.001, 0.6]), rng.choice([0.25, 0.75])]
+                        src = const_src(seq + [0.75] * 8)
+                    else:
+                        src = draw_source(rng, 1.0)
+                    sbx_case(box, p1, p2, 1.0, rng.choice([0, 1, 5, 15]), src, plain=False,
+                             prefer_whole=True, force=(kind_a, fb) if rng.random() < 0.5 else (fb, kind_a))
+            for kind in ("pm", "uniform", "nonuniform"):
+                for _ in range(ctx.pick(2, 8)):
+                    d = rng.choice([1, 2, 3])
+                    box = [rng.choice(NONINT_BOXES) for _ in range(d)]
+                    parent = [gen_whole_coord(rng, lb, ub) for lb, ub in box]
+                    extra = {"pm": {"distribution_index": rng.choice([0, 5, 20, 100])}, "uniform": {"perturbation": rng.choice([0.5, 1.0, 10.0])},
+                             "nonuniform": {"max_iterations": 10, "iteration": rng.randint(0, 10), "perturbation": 0.5}}[kind]
+                    prob = rng.choice([1.0, 1.0, 0.5])
+                    mutator_case(kind, box, parent, prob, extra, draw_source(rng, prob), force=kind_a)
+            for which in ("omopso", "smpso", "psoga"):
+                for _ in range(ctx.pick(2, 6)):
+                    d = rng.choice([1, 2, 3])
+                    box = [rng.choice(NONINT_BOXES) for _ in range(d)]
+                    x = [gen_whole_coord(rng, lb, ub) for lb, ub in box]
+                    v = [rng.choice([0.3, -0.3, 0.7, -0.7, 1.0, -2.0, float(ub) - xi, float(lb) - xi, 10.0, -10.0, 0.0]) for xi, (lb, ub) in zip(x, box)]
+                    position_case(which, box, x, v, plain=False, force=kind_a)
 
     def pick_options(d):
         mx = rng.choice([1, 2, 5, 50])
@@ -842,8 +1022,11 @@ def run(ctx):
             if k < 0.55:
                 lb = rng.choice([0.0, -1.0, -5.0, 0.25, -0.75, 1e-3, 2.0])
                 b = (lb, lb + rng.choice([1.0, 0.5, 2.0, 1e-3, 3.75, 1e-9, 1e-12]))
-            elif k < 0.7:
+            elif k < 0.62:
                 b = rng.choice([(0, 5), (-3, 3), (10, 20), (-10, -1)])
+            elif k < 0.74:
+                lb = round(rng.uniform(-10, 10), 2)          # bounds that sit on no coarse decimal grid
+                b = (lb, lb + rng.choice([0.3, 0.77, 1.3, 2.9, 0.06]))
             elif k < 0.85:
                 b = rng.choice([(1e6, 1e12), (-1e15, 1e15), (1e15, 1e15 + 4.0), (-1e280, 1e280), (0.0, 1e290), (-7.5e5, -2.25e5)])
             else:
@@ -851,7 +1034,7 @@ def run(ctx):
                 if abs(b[0]) > 1e290 or abs(b[1]) > 1e290:
                     b = (-1e280, 1e280)
             box.append(b)
-            precs.append(rng.choice([None, None, None, 0, 1e-12, 1e-3, 0.1, 0.5, 0.25, 1e-6, 1.0, 2.0]))
+            precs.append(rng.choice([None, None, None, 0, 1e-12, 1e-3, 0.1, 0.5, 0.25, 1e-6, 1.0, 2.0, 0.5, 0.05, 0.4, 5.0]))
         mode = rng.random()
 
         def src():
@@ -864,6 +1047,7 @@ def run(ctx):
         gen_vector_case(box, precs, rng.choice([1, 2, 3, 5]), src)
 
     n_ops = ctx.pick(2000, 22000)
+    whole_stream()
     for i in range(ctx.pick(100, 1000)):
         gen_stream()
     for i in range(n_ops):
@@ -900,7 +1084,17 @@ def run(ctx):
                 "objects (40% of the operator streams and mixed histories) and, per algorithm, after the algorithm object was built - before its "
                 "first run or between two runs of the same object, optionally with a second algorithm object built afterwards; every call / run is "
                 "judged on the box current at that moment. Parameter names: x0.., x_1..x_12, reverse alphabetical, words, shuffled; a directed DoE "
-                "stream gives each of 2..12 such parameters its own disjoint box [10k, 10k+1] and runs every generator on it")
+                "stream gives each of 2..12 such parameters its own disjoint box [10k, 10k+1] and runs every generator on it. "
+                "Red-team round 3: parents / positions in every representation of the same real vector - list of floats, list of numpy.float64, "
+                "float ndarray and, for whole-number coordinates, Python ints, numpy.int64 scalars, integer ndarray, mixtures with floats "
+                "(the model gets float(x): ints are embedded exactly) - for SBX, the three mutators and the position update (position update "
+                "on an integer-ndarray position: run and counted only, see assumptions); a directed stream of whole-number parents strictly "
+                "inside boxes with non-integer bounds that do not contain 0 (one parent on the whole number next to the zero-side bound, "
+                "scripted draws that push the children onto / next to a bound); boxes with |lb| >> |ub| and the reverse ([-2.5e6, 0.7], "
+                "[-1e9, 1e-3], [-1e-3, 1e9], ...) with parents on the bounds; results of clip / of the swarm reset are judged with the "
+                "property's slack 1e-12 exactly (no ulp term); NSGA-II runs seeded through CustomGenerator with whole-number designs "
+                "(6 representations) in boxes with non-integer bounds; one re-roll stress run per algorithm (half of the evaluations fail); "
+                "RandomGenerator boxes that sit on no decimal grid with precisions 0.5 / 0.05 / 0.4 / 5")
     rhist = {"runs": {}, "evaluated_vectors": 0, "failed_evaluations": 0, "coordinates_on_a_bound": 0, "generation_steps": 0,
              "breed_passes": 0, "runs_aborted_by_complex_power": 0, "runs_skipped_nan": 0, "swarm_reordered_steps": 0, "rerolled_individuals": 0,
              "clipped_in_runs": 0, "children_dropped_by_duplicate_filter": 0}
@@ -911,7 +1105,7 @@ def run(ctx):
     ctx.coq_compare("c08_op", HEADER, "op_case", "op_obs", "c08_op_run", "op_obs_eqb", cases, expected, meta,
                     shard=ctx.pick(300, 1500))
     ctx.coq_compare("c08_gen", HEADER, "gen_case", "nat", "c08_gen_run", "Nat.eqb", gcases, gexpected, gmeta,
-                    shard=ctx.pick(250, 1500))
+                    shard=ctx.pick(250, 500))      # 1500 cases took 105 s CPU per coqc process: timeouts (600 s) on a loaded machine
     ctx.extra.update({"run_histogram": rhist, "doe_histogram": dhist})
     t_end = os.times()
     ctx.extra["cpu_s"] = {"python_user_sys": round(t_end.user - t_start.user + t_end.system - t_start.system, 1),
@@ -935,7 +1129,34 @@ RUN_BOXES = [
     [((0.0, 1.0), 0.25), ((-100.0, 100.0), 1.0), ((0.0, 1e-6), None), ((2.0, 2.5), None)],
     [((-1e15, 1e15), None), ((0.0, 1.0), None)],
     [((1 / 3, 2 / 3), None), ((-0.1, 0.7), None)],
+    [((-2.5e6, 0.7), None), ((-1e-3, 1e9), None)],            # |lb| >> |ub| and the reverse
 ]
+# boxes with non-integer bounds that do not contain 0, for runs seeded with whole-number designs (CustomGenerator)
+SEED_BOXES = [
+    [((0.5, 4.5), None), ((-3.5, -0.5), None)],
+    [((0.1, 3.9), None), ((2.5, 8.5), None), ((-6.4, -0.3), None)],
+]
+SEED_KINDS = ["list of ints", "list of numpy.int64", "ndarray of ints", "mixed int/float", "ndarray", "list"]
+
+
+def seeds_as(kind, designs):
+    """whole-number seed designs in one of the representations a user writes them in (deterministic, for the replay)"""
+    import numpy as np
+    out = []
+    for r, v in enumerate(designs):
+        if kind == "list of ints":
+            out.append([int(x) for x in v])
+        elif kind == "list of numpy.int64":
+            out.append([np.int64(int(x)) for x in v])
+        elif kind == "ndarray of ints":
+            out.append(np.array([int(x) for x in v], dtype=np.int64))
+        elif kind == "mixed int/float":
+            out.append([int(x) if (i + r) % 2 == 0 else float(x) for i, x in enumerate(v)])
+        elif kind == "ndarray":
+            out.append(np.array([float(x) for x in v], dtype=np.float64))
+        else:
+            out.append([float(x) for x in v])
+    return out
 
 
 # (when, how the box changes, how it is written, a second algorithm object on the same problem afterwards)
@@ -1095,6 +1316,13 @@ def run_level(ctx, rhist, specs=None):
             ev.append(("init", [list(v) for v in r]))
             return r
         patch(ops.RandomGenerator, "generate", rgenerate)
+        o_cg = ops.CustomGenerator.generate
+
+        def cgenerate(self):
+            r = o_cg(self)
+            ev.append(("init", [[float(x) for x in v] for v in r]))
+            return r
+        patch(ops.CustomGenerator, "generate", cgenerate)
 
     def uninstall():
         while saved:
@@ -1300,7 +1528,7 @@ def run_level(ctx, rhist, specs=None):
              "SMPSO": (asw.SMPSO, "ASmpso"), "PSOGA": (asw.PSOGA, "APsoga")}
     cases, expected, meta = [], [], []
 
-    def one_run(name, box, N, G, fail_p, pm_opt, correspond=True, seed=None, pc_opt=None, plan=None, names=None):
+    def one_run(name, box, N, G, fail_p, pm_opt, correspond=True, seed=None, pc_opt=None, plan=None, names=None, seeds=None):
         """One Problem and one long-lived algorithm object.  Without a plan: build, run.  With a plan (a HISTORY):
         the declared box is changed IN PLACE on problem.parameters after the algorithm object was built -
         plan['when'] = 'before_first_run': build, change, run;  'between_runs': build, run, change, run again on the same
@@ -1318,6 +1546,8 @@ def run_level(ctx, rhist, specs=None):
         base = {"algorithm": name, "box": [list(b) for b in bounds], "precision": precs, "population_size": N, "generations": G,
                 "failure_probability": fail_p, "prob_mutation": pm_opt, "prob_cross": pc_opt, "python_random_seed": seed,
                 "names": [p["name"] for p in params], "history": plan}
+        if seeds is not None:          # (representation, whole-number designs): the initial population comes from a CustomGenerator
+            base["seed_designs_given_as"], base["seed_designs"] = seeds[0], [list(v) for v in seeds[1]]
 
         def build():
             alg = cls(problem)
@@ -1334,6 +1564,9 @@ def run_level(ctx, rhist, specs=None):
                     alg.options['prob_cross'] = pc_opt
                 if getattr(alg, "crossover", None) is not None:
                     alg.crossover.probability = pc_opt
+            if seeds is not None:
+                alg.generator = ops.CustomGenerator(problem.parameters)
+                alg.generator.init(seeds_as(seeds[0], seeds[1]))
             return alg
 
         alg = build()
@@ -1447,7 +1680,8 @@ def run_level(ctx, rhist, specs=None):
         for sp in specs:
             one_run(sp["algorithm"], [(tuple(b), p) for b, p in zip(sp["box"], sp["precision"])], sp["population_size"], sp["generations"],
                     sp["failure_probability"], sp["prob_mutation"], correspond=False, seed=sp["python_random_seed"], pc_opt=sp.get("prob_cross"),
-                    plan=sp.get("history"), names=sp.get("names"))
+                    plan=sp.get("history"), names=sp.get("names"),
+                    seeds=(sp["seed_designs_given_as"], sp["seed_designs"]) if sp.get("seed_designs") else None)
         return
     sizes = ctx.pick([2, 3, 5, 8], [2, 3, 5, 8, 12, 20])
     gens = ctx.pick([1, 2, 4], [1, 2, 4, 7])
@@ -1463,6 +1697,27 @@ def run_level(ctx, rhist, specs=None):
                     one_run(name, box, N, G, fail_p, pm_opt, pc_opt=pc_opt,
                             names=param_names(rng, len(box), rng.choice(NAME_SCHEMES)))
         one_run(name, RUN_BOXES[0], 1, 2, 0.0, None, correspond=False)       # population of one: direct oracle only
+        # re-roll stress (direct oracle only): half of the evaluations fail, so that a run has about as many re-rolled designs
+        # as evaluated ones - a re-roll that leaves the box only for rare draws (round 1: 0.27 % per coordinate) is seen with
+        # probability > 95 % over the five algorithms instead of by luck
+        rhist["reroll_stress_runs"] = rhist.get("reroll_stress_runs", 0) + 1
+        one_run(name, RUN_BOXES[6] if name != "NSGAII" else RUN_BOXES[2], ctx.pick(24, 40), 3, 0.5, None, correspond=False)
+        if name == "NSGAII":
+            # red-team round 3: the run starts from hand-written whole-number seed designs (CustomGenerator) in a box whose
+            # bounds are not whole numbers; the only shipped algorithm that takes a generator object from the caller
+            for kind in SEED_KINDS:
+                for rep_ in range(ctx.pick(1, 3)):
+                    box = rng.choice(SEED_BOXES)
+                    n_seed = rng.choice([3, 4, 6])
+                    designs = [[gen_whole_coord(rng, lb, ub) for (lb, ub), _ in box] for _ in range(n_seed)]
+                    for v in designs[:2]:           # two seeds on the whole numbers next to the zero-side bounds
+                        for i, ((lb, ub), _) in enumerate(box):
+                            if rng.random() < 0.7:
+                                v[i] = float(math.ceil(lb)) if lb > 0 else float(math.floor(ub))
+                    rhist["runs_seeded_with_whole_number_designs"] = rhist.get("runs_seeded_with_whole_number_designs", 0) + 1
+                    one_run(name, box, n_seed, rng.choice([2, 3, 4]), rng.choice([0.0, 0.0, 0.15]), rng.choice([None, 0.5]),
+                            pc_opt=rng.choice([None, None, 0.9]), names=param_names(rng, len(box), rng.choice(NAME_SCHEMES)),
+                            seeds=(kind, designs))
         # ---- histories: the declared box is changed in place after the algorithm object was built
         for when, how, mode, second in ctx.pick(HISTORIES_QUICK, HISTORIES_QUICK * 3 + HISTORIES_MORE * 2):
             for _ in range(20):
@@ -1771,27 +2026,31 @@ def replay(ctx, data):
             elif op.startswith("update_position"):
                 cls = {"omopso": OMOPSO, "smpso": SMPSO, "psoga": PSOGA}[inp["op"].split("/")[1]]
                 part = type("P", (), {})()
-                part.vector, part.features = list(inp["position"]), {"velocity": list(inp["velocity"])}
+                part.vector, part.features = rebuild(inp["position"], inp.get("position_given_as", "list")), {"velocity": list(inp["velocity"])}
                 holder = type("H", (), {})()
                 holder.parameters = params
                 cls.update_position(holder, [part])
-                out = part.vector
-                bad = [outside(x, lb, ub) for x, (lb, ub) in zip(out, box)]
+                out = plain_numbers(part.vector)
+                bad = [outside(x, lb, ub, exact=True) for x, (lb, ub) in zip(out, box)]
             elif inp.get("op") in ("pm", "uniform", "nonuniform", "sbx"):
                 with Recorder(ops) as rec:
                     rec.shim.source = lambda: next(draws)
                     if inp["op"] == "sbx":
-                        out = ops.SimulatedBinaryCrossover(params, inp["probability"], inp["distribution_index"]).cross(list(inp["p1"]), list(inp["p2"]))
-                        out = list(out[0]) + list(out[1])
-                        bad = [outside(x, lb, ub) for x, (lb, ub) in zip(out, box + box)]
+                        reps = inp.get("parents_given_as", ["list", "list"])
+                        out = ops.SimulatedBinaryCrossover(params, inp["probability"], inp["distribution_index"]).cross(
+                            rebuild(inp["p1"], reps[0]), rebuild(inp["p2"], reps[1]))
+                        out = plain_numbers(list(out[0]) + list(out[1]))
+                        bad = [outside(x, lb, ub, exact=True) for x, (lb, ub) in zip(out, box + box)]
                     else:
+                        parent = rebuild(inp["parent"], inp.get("parent_given_as", "list"))
                         if inp["op"] == "pm":
-                            out = ops.PmMutator(params, inp["probability"], inp["distribution_index"]).mutate(list(inp["parent"]))
+                            out = ops.PmMutator(params, inp["probability"], inp["distribution_index"]).mutate(parent)
                         elif inp["op"] == "uniform":
-                            out = ops.UniformMutator(params, inp["probability"], inp["perturbation"]).mutate(list(inp["parent"]))
+                            out = ops.UniformMutator(params, inp["probability"], inp["perturbation"]).mutate(parent)
                         else:
-                            out = ops.NonUniformMutation(params, inp["probability"], inp["max_iterations"], inp["perturbation"]).mutate(list(inp["parent"]), inp["iteration"])
-                        bad = [outside(x, lb, ub) for x, (lb, ub) in zip(out, box)]
+                            out = ops.NonUniformMutation(params, inp["probability"], inp["max_iterations"], inp["perturbation"]).mutate(parent, inp["iteration"])
+                        out = plain_numbers(out)
+                        bad = [outside(x, lb, ub, exact=True) for x, (lb, ub) in zip(out, box)]
             else:
                 print("  (generator designs are not re-executed; input: %s)" % json.dumps(inp)[:300])
                 continue
@@ -1827,6 +2086,8 @@ LEVEL_NOTE = ("Trusted: Coq kernel + vm_compute; FloatAxioms.ltb_spec/eqb_spec; 
               "proved in exact rationals; their binary64 rounding error (measured <= 1 ulp of the larger bound) is covered by the 4-ulp "
               "tolerance of the correspondence and of the oracle, not by a theorem. That the mid-point (lb+ub)/2 lies between the bounds is a "
               "hypothesis of the three-level theorem (proved for rationals, checked on every run for binary64). Outside the statement: NaN, "
+              "the swarm position update on a particle whose position is an INTEGER ndarray (update_position works in place and numpy "
+              "truncates; no shipped path creates such a position; run and counted, not judged - lead's ruling in round 3), "
               "ranges whose width overflows, parameter_type 'integer', populations of one (direct oracle only), crashes (ZeroDivisionError of "
               "polynomial mutation for lb = ub; TypeError from a complex power when a parent lies outside the box by the rounding slack). "
               "Correspondence is sampled, the theorems are unbounded.")
